@@ -41,6 +41,31 @@ def table_str(o):
     return f"nb={nb} " + ";".join(rows)
 
 
+def round0_account(o, gave_up=False):
+    """A finished Hyperband search against its schedule, counted on the trials themselves: round 0 of every bracket is
+    filled by sampling whatever happens to the trials, so a search that ran all its sweeps has exactly
+    iterations * size(b, 0) round-0 trials labelled b - fewer means it stopped early (unless the sampler found nothing new),
+    more means it ran brackets the schedule does not have. Returns a text or None."""
+    cnt = collections.Counter()
+    for t in o.trials.values():
+        v = t.hyperparameters.values
+        if v.get("tuner/round") == 0:
+            cnt[v.get("tuner/bracket")] += 1
+    nb = o._get_num_brackets()
+    for b in range(nb):
+        want = o.hyperband_iterations * o._get_size(b, 0)
+        if cnt[b] > want:
+            return (f"{cnt[b]} first-round trials of bracket {b} were run, the schedule (max_epochs={o.max_epochs}, factor={o.factor}, "
+                    f"{o.hyperband_iterations} iteration(s)) has {want}: more sweeps than asked for")
+        if cnt[b] < want and not gave_up:
+            return (f"the search is over with {cnt[b]} first-round trials of bracket {b}, the schedule (max_epochs={o.max_epochs}, factor={o.factor}, "
+                    f"{o.hyperband_iterations} iteration(s)) has {want}: it ended early")
+    extra = [b for b in cnt if b not in range(nb)]
+    if extra:
+        return f"trials labelled with bracket(s) {extra} outside the schedule's {nb} brackets"
+    return None
+
+
 class Mon:
     """C10 / C11 statements on the implementation."""
 
@@ -251,6 +276,146 @@ def schedule_sweep(res, tier, lines_out, spans):
             lines_out += ln
 
 
+def reload_scenario(sseed):
+    """C07 for Hyperband, statement evaluated literally: a search with a slow worker (its trial stays in flight while the
+    others run whole brackets) is saved at a random point and reloaded by a fresh oracle; from then on the reloaded oracle
+    and the uninterrupted one (its running trials queued again, as the statement says) get the same requests and outcomes
+    until the search is over: every answer and the final bracket tables must be the same."""
+    import os
+    import shutil
+    kt = impl()
+    R = random.Random(sseed)
+    tags = collections.Counter()
+    with tempdir("kth") as d, tempdir("kth2") as d2:
+        specs = gen.rand_specs(R, maxdepth=2, top=(2, 3))
+        me, fa, it = R.randint(2, 12), R.randint(2, 3), R.randint(1, 2)
+        o = gen.make_oracle(R, "hyperband", specs, d, max_epochs=me, factor=fa, iterations=it, max_consecutive_failed_trials=4)
+        tun = [f"w{i}" for i in range(R.randint(2, 4))]
+        slow = tun[0]
+
+        def answer(t):
+            return (t.status, t.trial_id, json.dumps(t.hyperparameters.values, sort_keys=True, default=str)) if t.status == "RUNNING" else (t.status,)
+
+        def outcome():
+            oc = R.choice(["C"] * 9 + ["INV", "FAIL"])
+            return oc, float(R.choice([0, 1, 1, 2, 2, 3, 5, -1]))
+
+        def end(oracle, t, oc, val):
+            if oc == "C":
+                quiet(oracle.update_trial, t.trial_id, {"score": val}, step=0)
+            c = kt.engine.trial.Trial(hyperparameters=t.hyperparameters.copy(), trial_id=t.trial_id,
+                                      status={"C": "COMPLETED", "INV": "INVALID", "FAIL": "FAILED"}[oc])
+            quiet(oracle.end_trial, c)
+        hold, stopped = {}, set()
+        n1 = R.randint(4, 150)
+        try:
+            for _ in range(n1):
+                if not hold and len(stopped) == len(tun):
+                    break
+                w = R.choice(tun)
+                if w in hold:
+                    if R.random() < (0.04 if w == slow else 0.7):
+                        t = hold.pop(w)
+                        end(o, t, *outcome())
+                elif w not in stopped:
+                    t = quiet(o.create_trial, w)
+                    if t.status == "RUNNING":
+                        hold[w] = t
+                    elif t.status == "STOPPED":
+                        stopped.add(w)
+        except RuntimeError as e:
+            if "consecutive" not in str(e):
+                raise
+            return tags
+        quiet(o.save)
+        HB_KEYS = ("hyperband_iterations", "max_epochs", "factor", "brackets", "current_bracket", "current_iteration")
+
+        def progress(oracle):
+            st = oracle.get_state()
+            return json.dumps({k: st.get(k) for k in HB_KEYS}, sort_keys=True)
+        state_before = progress(o)
+        if len(o._brackets) > 1:
+            tags["reload-with-open-brackets"] += 1
+        if o._brackets and o._brackets[-1]["bracket_num"] != o._current_bracket:
+            tags["reload-newest-bracket-done-older-open"] += 1
+        n2 = gen.clone_oracle(o, d)
+        quiet(n2.reload)
+        shutil.rmtree(d2, ignore_errors=True)
+        shutil.copytree(d, d2)
+        o._set_project_dir(d2, "p")
+        for t in o.ongoing_trials.values():
+            o._retry_queue.append(t.trial_id)
+        o.ongoing_trials = {}
+        if progress(n2) != state_before:
+            raise Violation("C07", f"Hyperband progress (get_state) changed by save/reload: {state_before} -> {progress(n2)}", {"tag": "hyperband-reload-state"})
+        tags["reload"] += 1
+        hold, stopped = {}, set()
+        try:
+            for step in range(600):
+                if not hold and len(stopped) == len(tun):
+                    break
+                w = R.choice(tun)
+                if w in hold:
+                    if R.random() < 0.7:
+                        t1, t2 = hold.pop(w)
+                        oc, val = outcome()
+                        e1 = e2 = None
+                        try:
+                            end(o, t1, oc, val)
+                        except RuntimeError as e:
+                            e1 = str(e)[:40]
+                        try:
+                            end(n2, t2, oc, val)
+                        except RuntimeError as e:
+                            e2 = str(e)[:40]
+                        if e1 != e2:
+                            raise Violation("C07", f"after the reload end_trial({t1.trial_id}) aborts differently: uninterrupted {e1}, reloaded {e2}", {"tag": "hyperband-reload"})
+                        if e1:
+                            return tags
+                elif w not in stopped:
+                    t1 = quiet(o.create_trial, w)
+                    t2 = quiet(n2.create_trial, w)
+                    if answer(t1) != answer(t2):
+                        raise Violation("C07", f"Hyperband (max_epochs={me}, factor={fa}, iterations={it}) saved at {state_before}: request {step} after the reload is answered "
+                                               f"{answer(t2)} by the reloaded oracle, {answer(t1)} by the uninterrupted one", {"tag": "hyperband-reload"})
+                    if t1.status == "RUNNING":
+                        hold[w] = (t1, t2)
+                    elif t1.status == "STOPPED":
+                        stopped.add(w)
+            else:
+                tags["reload-unfinished"] += 1
+        except RuntimeError as e:
+            if "consecutive" not in str(e):
+                raise
+            return tags
+        if brackets_str(o) != brackets_str(n2) or len(o.trials) != len(n2.trials):
+            raise Violation("C07", f"after the reload the search ends with {len(n2.trials)} trials / {brackets_str(n2)}, uninterrupted {len(o.trials)} / {brackets_str(o)}",
+                            {"tag": "hyperband-reload"})
+        tags["reload-finished"] += 1
+    return tags
+
+
+def run_reload(seed, tier, n=None):
+    res = Result("hyperband")
+    res.rule = ("Hyperband searches with a slow worker (2-4 workers, max_epochs 2-12, factor 2-3, 1-2 iterations), saved after 4-150 requests and "
+                "reloaded; the reloaded and the uninterrupted oracle then serve the same requests to the end; non-trivial = reload with a bracket open")
+    n = n or (120 if tier == "quick" else 2500)
+    R = random.Random(seed ^ 0xC07)
+    for i in range(n):
+        sseed = R.randrange(1 << 30)
+        res.scenarios += 1
+        try:
+            tags = reload_scenario(sseed)
+        except Violation as v:
+            res.violations.append({"pid": v.pid, "what": v.what, "sig": v.sig, "replay": {"suite": "hyperband", "seed": sseed, "reload": True}})
+            continue
+        res.hist.update(tags)
+        res.evaluations += 1
+        if tags.get("reload"):
+            res.nontrivial.add(hashlib.sha1(f"r{sseed}".encode()).hexdigest())
+    return res
+
+
 def run(seed, tier, n=None):
     res = Result("hyperband")
     res.rule = ("random parallel schedules (1-5 workers, 20-400 requests) on HyperbandOracle with max_epochs 1-40, factor 2-5, 1-2 iterations, "
@@ -294,6 +459,9 @@ def replay(doc):
         res.violations = [v for v in res.violations if v["replay"].get("table") == doc["table"]]
         return res
     try:
+        if doc.get("reload"):
+            reload_scenario(doc["seed"])
+            return res
         lines, expect, d, tags = scenario(doc["seed"], res)
     except Violation as v:
         res.violations.append({"pid": v.pid, "what": v.what, "sig": v.sig, "replay": doc})
